@@ -105,4 +105,22 @@ PROPS = {
             "C09_* theorems prove the model equals the signed-quantity semantics the property states; the implementation returned a "
             "different value or error kind on this input.",
     },
+    "C04": {
+        "lean_modules": ["TemporalModel.Props.C04"],
+        "suites": ["c04"],
+        "level_text": "Proof: C04_constructor (constructed dates are exactly the valid in-range days), C04_add_spec (AddISODate = years/"
+                      "months first with the day regulated per overflow, then weeks/days; failures are RangeErrors), C04_add_on_timeline, "
+                      "C04_add_huge_fields, C04_until_day (largestUnit day = timeline distance), C04_add_until (the inverse law "
+                      "start.add(start.until(end,U)) = end for all four largest units, all pairs of in-range dates), C04_since_subtract. "
+                      "Tie: add/subtract/until/since through the public PlainDate API on month-end/leap-day/limit-biased dates, i32-edge "
+                      "duration fields, both overflow modes, all largest units; plus the inverse law probed on the implementation itself.",
+        "level_note": "Trusted: Lean kernel (+propext, Classical.choice, Quot.sound); hand model of iso.rs add_date_duration/diff_iso_date "
+                      "(loops with fuel 8/16: fuel sufficiency is checked by the correspondence run, not proved: C04_add_until is "
+                      "conditional on the difference returning a value), date.rs, calendar.rs ISO branch; until/since with a rounding "
+                      "smallestUnit/increment is C08's machinery and not covered here. Balancedness/uniqueness of until are compared "
+                      "against the model, not proved. Harness + diff.",
+        "why_difference_is_violation":
+            "C04_* theorems prove the model implements Temporal's AddISODate/DifferenceISODate and the inverse law; the implementation "
+            "returned a different date/duration/error kind (or, for pd_law_inv, broke start.add(start.until(end)) = end) on this input.",
+    },
 }
